@@ -6,7 +6,7 @@ VERIF = os.path.dirname(os.path.dirname(os.path.abspath(__file__)))
 TECH = "contract-based deductive verification: VCs generated from the real function ASTs (pyvc) against sidecar contracts, discharged by z3 5.1 / cvc5 1.0.3"
 
 CLAIMED = {
-    "C09": dict(text="Every law of the statement is a postcondition of DirectorySnapshotDiff.__init__ (5 loop invariants over set/map views), proved unbounded for all pairs of snapshots; accessors, __sub__ and EmptyDirectorySnapshot are proved against the same view.",
+    "C09": dict(text="Every law of the statement is a postcondition of DirectorySnapshotDiff.__init__ (5 loop invariants over set/map views), proved unbounded for all pairs of snapshots; accessors, __sub__ and EmptyDirectorySnapshot are proved against the same view. DirectorySnapshot.__init__ establishes what the laws assume (every path's identity, the root's included, is in the index); stat_info() has a contract.",
                 note="Assumes wf(snapshot) ('every inode has one path', from the statement) for the laws, only wf0 for KeyError-freedom; builtin set/dict semantics (E5); stat fields uninterpreted. Bounded native battery (all pairs of 2-name trees) is reported separately, never as proof.", ref="4/C09"),
     "C14": dict(text="generate_sub_moved_events / generate_sub_created_events: output = one event per walked entry, in walk order, with src = old ++ dest[len(new):] (SMT string theory), right flavour, synthetic flag; three nested loop invariants.",
                 note="os.walk (E1) and os.path.join (E2) are assumed contracts; that os.walk lists the real descendants is not proved. The re-key block of Inotify.read_events is covered by C02's contracts.", ref="4/C14"),
@@ -14,15 +14,15 @@ CLAIMED = {
                 note="E9 (matchers pure, uninterpreted), E10 (event dataclass). Agreement with pathlib's own matching and RegexMatchingEventHandler.__init__ are covered only by the bounded battery.", ref="4/C15"),
     "C13": dict(text="Whole-view pre/postconditions (normal and exceptional) and the registry class invariant for schedule/unschedule/unschedule_all/_clear_emitters/add/remove_handler_for_watch/start, plus ObservedWatch identity (__init__/key/__eq__/__ne__/__hash__); induction over call sequences is Hoare-logic soundness.",
                 note="E7 (thread start/join), emitter constructor/start either raise or succeed (failure forked at both), emitter.stop() does not raise, builtin containers (E5). The class invariant is assumed on entry and proved on every exit.", ref="4/C13"),
-    "C04": dict(text="dispatch_events under the observer lock: with plain callbacks every handler registered for the event's watch is called exactly once and nobody else; with arbitrary re-entrant callbacks (registry havocked under the class invariant) at most once, only handlers of that watch, each registered at the instant of its call; queue_event queues the (event, watch) pair iff the filter admits it; every protected registry access has a lock-held obligation.",
+    "C04": dict(text="dispatch_events under the observer lock: with plain callbacks every handler registered for the event's watch is called exactly once and nobody else; with arbitrary re-entrant callbacks (registry havocked under the class invariant) at most once, only handlers of that watch, each registered at the instant of its call; queue_event queues the (event, watch) pair iff the filter admits it; every protected registry access has a lock-held obligation. Composed with the re-verified queue contracts (C16, incl. the lemma that EventQueue overrides no queue operation), watch identity (key is the triple path/recursive/filter) and the registry mutators under rely/guarantee: a mutator that splits its update over two lock sections fails release[I:...].",
                 note="Rely/guarantee over the observer RLock (E7); FIFO/no-loss of the queue is C16 + E6 and is not re-proved here; liveness not decided.", ref="4/C04"),
-    "C05": dict(text="Every callback is made in a lock hold in which membership was just established; unschedule/remove_handler_for_watch/unschedule_all/_remove_emitter/_clear_emitters postconditions (handler gone, emitter stopped and joined) are proved under the same lock; on_thread_stop reaches unschedule_all.",
+    "C05": dict(text="Every callback is made in a lock hold in which membership was just established; unschedule/remove_handler_for_watch/unschedule_all/_remove_emitter/_clear_emitters postconditions (handler gone, emitter stopped and joined) are proved under the same lock; on_thread_stop reaches unschedule_all. Every stop() call runs the thread-specific release itself (BaseThread.stop, EventDispatcher.stop); emitter.is_alive() is modelled (False does not mean never started), so 'every registered emitter is told to stop' is refuted by a teardown guarded by is_alive().",
                 note="Same trusted base as C04; that join() returns is liveness (C06).", ref="4/C05"),
     "C17": dict(text="Rely/guarantee over DelayedQueue._lock with a ghost put-history: every section of put/get/remove/close preserves the lock invariant (proved at each release and wait entry) and stays within the rely; get() hands out the oldest remaining element exactly once, a delayed one never before insert time + delay, a head removed meanwhile is not returned, None only after close(); remove() hands out the first match exactly once; signalling discipline of close()/put().",
                 note="E7 (Lock, Condition.wait atomic release/re-acquire), time.time non-decreasing (reals), atomic attribute store, distinct elements. 'A blocked get() returns after close()' is liveness: only the signalling discipline is proved.", ref="4/C17"),
     "C16": dict(text="SkipRepeatsQueue under the queue mutex: invariant relating _last_item to a ghost enqueue history (None, or the last enqueued item which is still waiting); _put/_get preserve it and stay within the rely; _get is FIFO and forgets the last item iff that very item is taken out; put() drops only when, at its read of _last_item, the item equals the last enqueued, still-waiting item, and otherwise hands the item to Queue.put exactly once.",
                 note="E6 (queue.Queue put/get are critical sections calling _put/_get), atomic attribute loads, items' == is an equivalence. The equality law of event objects is decided structurally (dataclass lemmas from the AST) plus a bounded all-pairs battery, not by SMT.", ref="4/C16"),
-    "C11": dict(text="queue_event queues iff the filter is None or the event is an instance of a filter class; get_event_mask_from_filter: loop invariant + postcondition 'needs(class, bit, recursive) => bit in mask' for all 13 classes x 10 kernel bits, with `needs` computed from the statement's translation table (not from the function); default mask and ABI constants as lemmas.",
+    "C11": dict(text="queue_event queues iff the filter is None or the event is an instance of a filter class; get_event_mask_from_filter: loop invariant + postcondition 'needs(class, bit, recursive) => bit in mask' for all 13 classes x 10 kernel bits, with `needs` computed from the statement's translation table (not from the function); default mask and ABI constants as lemmas. Frame: InotifyEmitter.queue_events does not consult the filter and hands a number of events fixed by the record alone to queue_event; watch identity includes the filter (two schedules of one path with different filters are two watches).",
                 note="The translation table is C03's proved postcondition; E8 (the kernel reports a record only if its bit is requested). Over-approximate masks are allowed. The unchanged tree violated 33 (class<-bit) obligations: repaired by a fix: commit.", ref="4/C11"),
     "C03": dict(text="InotifyEmitter.queue_events: for every native record (each of the 15 event bits x IN_ISDIR, or a rename pair) x recursive x full-emitter x root-or-not, the exact sequence of queued events equals the statement's translation table (class, paths, parent events, synthetic sub-events forwarded once and in order, stop iff root deleted); is_synthetic is False on every directly built event.",
                 note="PARTIAL: 'explained by the operation history' is not decided (needs the kernel). E8 (one event bit per record), C14's contract for the generators, dirname/fsdecode uninterpreted with E2/E3 axioms. Known finding (recorded): phantom events after a watched directory is moved out of the tree.", ref="4/C03"),
@@ -36,11 +36,11 @@ CLAIMED = {
                 note="E7, E11 (process table). NOT decided: 'never more than one child alive' across the watcher and event threads (process/process_watcher are not lock-protected), debounce timing beyond 'delivered after a timed wait expired', thread exit on stop() (liveness). ShellCommandTrick.on_any_event has a sequential contract only.", ref="4/C18"),
     "C12": dict(text="PARTIAL (typestate). Ghost per-descriptor open flags: os.read/os.write/os.close/poll/inotify_rm_watch require 'open'; lock invariant J of Inotify (not released => all three open; released => _closed; a read in flight is never released under its feet) proved at every release of close()/read_events(); close() releases only if no read is in flight and is idempotent; the reader releases in its second section iff closed meanwhile; Inotify.__init__ closes everything it opened when watch installation raises; InotifyBuffer starts no thread for a failed watch, close() = flag, wake-ups, join; emitter stop idempotent.",
                 note="E7/E8 (poll/os.read on open descriptors do not raise; os.pipe failure not injected). Rely of the reader = close()'s proved guarantee. Descriptor/thread counts over real cycles are measured only by the bounded battery. inotify_add_watch after a concurrent close() (third section of read_events) is outside the statement's list and only recorded.", ref="4/C12"),
-    "C08": dict(text="InotifyBuffer._group_events: region contract per batch event (append single / upgrade the first matching single MOVED_FROM in place / append pair with the first match pulled from the delay queue / single when nothing matches; every other position untouched; delay queue consulted at most once) and all pairs (moved_from, moved_to, one cookie); InotifyBuffer.run: every item except a single IN_IGNORED put exactly once in order, delayed iff unmatched MOVED_FROM, loop ends exactly on root IGNORED/DELETE_SELF; composed with the re-verified DelayedQueue put/get/remove contracts (C17).",
+    "C08": dict(text="InotifyBuffer._group_events: region contract per batch event (append single / upgrade the first matching single MOVED_FROM in place / append pair with the first match pulled from the delay queue / single when nothing matches; every other position untouched; delay queue consulted at most once) and all pairs (moved_from, moved_to, one cookie); InotifyBuffer.run: every item except a single IN_IGNORED put exactly once in order, delayed iff unmatched MOVED_FROM, loop ends exactly on root IGNORED/DELETE_SELF; composed with the re-verified DelayedQueue put/get/remove contracts (C17). The decoder of a read batch (_parse_event_buffer, C20's contract) is re-verified here; the batch loops are not left before their last element.",
                 note="No-loss/no-duplication over a batch is the induction over the per-event region contract. Cross-batch pairing and timing clauses are the composition with C17 (rely/guarantee), not re-proved end to end. E8 cookies.", ref="4/C08"),
     "C02": dict(text="PARTIAL. Watch-map contracts of the Inotify class against the meaning of each native record: _add_dir_watch watches the root and (recursive) every directory found under it, only the root otherwise; per record of read_events (region contract): IN_CREATE|ISDIR => new directory watched or the kernel refused; rename of a watched directory => its entry and exactly the entries below it re-keyed by prefix substitution (6-clause loop invariant, string facts proved as SMT-LIB string lemmas), same descriptors, both maps, keys outside both trees untouched; IN_IGNORED => pruned; watches added only by a recursive instance.",
                 note="NOT decided: that the event view equals the disk at quiescence (kernel, pacing condition). E8 kernel contract, E1, C20. A directory arriving by IN_MOVED_TO without a known watched source (moved in, or renamed right after creation) was never watched on the original tree: repaired by fix: 26501cd.", ref="4/C02"),
-    "C07": dict(text="PARTIAL. Exception-freedom of every library thread body: one obligation per subscript/pop/del/unpack/None-attribute in Inotify.read_events (incl. _recursive_simulate and the re-key loop), InotifyBuffer._group_events/run, InotifyEmitter.queue_events, PollingEmitter.queue_events, DirectorySnapshot.walk/__init__, with inotify_add_watch / stat / listdir failing at every call; invariant 'every live kernel descriptor has a path entry'; root deletion => exactly one DirDeletedEvent(root) + stop on both back ends, reader loop ends.",
+    "C07": dict(text="PARTIAL. Exception-freedom of every library thread body: one obligation per subscript/pop/del/unpack/None-attribute in Inotify.read_events (incl. _recursive_simulate and the re-key loop), InotifyBuffer._group_events/run, InotifyEmitter.queue_events, PollingEmitter.queue_events, DirectorySnapshot.walk/__init__, with inotify_add_watch / stat / listdir failing at every call; invariant 'every live kernel descriptor has a path entry'; root deletion => exactly one DirDeletedEvent(root) + stop on both back ends, reader loop ends. The emitter's stop path (Inotify.close, InotifyBuffer.close/on_thread_stop, InotifyEmitter.on_thread_stop) raises nothing, also when the kernel refuses inotify_rm_watch; region-contract loops are not left before their last element.",
                 note="NOT decided: 'later changes are reported' (C02 + liveness). E8 kernel contract (IN_IGNORED last for its descriptor; descriptors may be re-issued). Two KeyErrors found on the original tree were repaired by fix: commits.", ref="4/C07"),
     "C06": dict(text="PARTIAL: NECESSARY CONDITIONS ONLY - termination itself is not proved. W1 every stop path sets the flag and then performs the wake-up of each blocking wait, without raising before (BaseThread.stop, EventDispatcher.stop/__init__ (unbounded queue + sentinel), BaseObserver.on_thread_stop, InotifyEmitter/InotifyBuffer.on_thread_stop, InotifyBuffer.close, Inotify.close, DelayedQueue.close, polling sleeps on the stop flag, debouncer stop, ProcessWatcher timed waits); W2 each run() leaves its loop once the flag is set and its blocking call returned; W3 wait-predicate discipline at both condition-variable waits; W4 lock levels checked on the lock-acquisition graph extracted from the real AST + join-under-lock rule.",
                 note="'No call blocks forever' / 'join() returns' are liveness properties of all interleavings and are NOT decided by contracts; fair scheduling, the kernel waking poll(), and user code are assumed. The callee lock summaries of W4 are read off the callee contracts.", ref="4/C06"),
